@@ -114,6 +114,8 @@ func (r rng) asciiStr(n int, alphabet string) string {
 	return sb.String()
 }
 
+func readFile(path string) ([]byte, error) { return os.ReadFile(path) }
+
 func fatal(format string, a ...any) {
 	fmt.Fprintf(os.Stderr, format+"\n", a...)
 	os.Exit(2)
